@@ -3,6 +3,7 @@ SPECIFICATION MSpec
 CONSTANTS Names = {"x", "y"}
           LeafIds = {1}
           DirIds = {0, 100}
+          Builders = {0}
           MaxDepth = 2
           NShards = 12
           Shard = @SHARD@
